@@ -76,17 +76,16 @@ func appendFieldList(dst []byte, kvList []interface{}, stack bool) []byte {
 			}
 
 			if stack && ErrorStackMarshaler != nil {
-				dst = enc.AppendKey(dst, ErrorStackFieldName)
 				switch m := ErrorStackMarshaler(val).(type) {
 				case nil:
 				case error:
 					if m != nil && !isNilValue(m) {
-						dst = enc.AppendString(dst, m.Error())
+						dst = enc.AppendString(enc.AppendKey(dst, ErrorStackFieldName), m.Error())
 					}
 				case string:
-					dst = enc.AppendString(dst, m)
+					dst = enc.AppendString(enc.AppendKey(dst, ErrorStackFieldName), m)
 				default:
-					dst = enc.AppendInterface(dst, m)
+					dst = enc.AppendInterface(enc.AppendKey(dst, ErrorStackFieldName), m)
 				}
 			}
 		case []error:
